@@ -52,6 +52,10 @@ class Log:
     def __init__(self):
         self.events = []
         self.calls = 0
+        # references to the files handed to wsgi.file_wrapper: without them
+        # CPython's reference counting would close a dropped file by itself
+        # and an omitted explicit close() would be invisible
+        self.keep = []
 
     def add(self, *ev):
         self.events.append(ev)
@@ -226,6 +230,7 @@ class Run:
                 else:
                     f = NoSeekFile(data, self.log, self.rid, closable=False)
                     f.read(fw.get("pos", 0))
+                self.log.keep.append(f)
                 self.log.add("return", self.rid)
                 wrapper = self.environ["wsgi.file_wrapper"]
                 if "block" in fw:
